@@ -26,7 +26,7 @@ ASSUMPTIONS = ["class identity is the class name; single inheritance", "dataclas
 
 def gen_cases(rng, tier):
     cases = []
-    n_uni = 12 if tier == "quick" else 400
+    n_uni = 8 if tier == "quick" else 300
     for _ in range(n_uni):
         u0 = gen_universe(rng, force_falsy=rng.random() < 0.5)
         names = [c.name for c in u0.classes]
@@ -35,21 +35,33 @@ def gen_cases(rng, tier):
         for k in range(n_orders):
             u = u0.clone(rng)
             cn = [c.name for c in u.classes]
-            order = [cn[i] for i in (orders[k] if orders else rng.sample(range(len(cn)), len(cn)))]
+            if orders:
+                idx = orders[k]
+            elif k == 0:
+                idx = list(range(len(cn)))              # every base class is used before its subclasses
+            elif k == 1:
+                idx = list(reversed(range(len(cn))))    # every subclass before its bases
+            else:
+                idx = rng.sample(range(len(cn)), len(cn))
+            order = [cn[i] for i in idx]
             uj = universe_to_json(u)
             ct = u.term()
             warm = []
             for c in order:
                 warm.append(TreeGen(rng, u, max_nodes=4, max_depth=1).node(c))
             static_first = rng.random() < 0.3
+            # every class of the hierarchy is queried (as the class of the case node), under this first-use order
+            for cname in cn:
+                tg = TreeGen(rng, u, max_nodes=8, max_depth=2)
+                nt = tg.node(cname)
+                cases.append({"kind": "accessors", "input": Con("C12", ct, nt),
+                              "opts": {"universe": uj, "warm": [norm(w).__repr__() for w in warm], "static_first": static_first}})
             tg = TreeGen(rng, u, max_nodes=12, max_depth=3)
             root = tg.node(rng.choice(cn))
-            picks = list(iter_nodes(root))
+            picks = [nt for nt in iter_nodes(root) if any(k.args[1].name == "ShOne" for k in nt.args[4])]
             rng.shuffle(picks)
-            # nodes holding a single child first: that is where child truthiness matters
-            picks.sort(key=lambda nt: -sum(1 for k in nt.args[4] if k.args[1].name == "ShOne"))
-            for nt in picks[:3]:
-                cases.append({"kind": "accessors", "input": Con("C12", ct, nt),
+            for nt in picks[:1]:
+                cases.append({"kind": "accessors-single-child", "input": Con("C12", ct, nt),
                               "opts": {"universe": uj, "warm": [norm(w).__repr__() for w in warm], "static_first": static_first}})
     return cases
 
